@@ -227,6 +227,43 @@ def r17_6(ctx):
                'compiled forms weight by GaussWeight * |det J|', definite=True)
 
 
+def r17_7(ctx):
+    """The load vector and the system matrix must be computed with the SAME tensor Gauss rule: the compiled mass assembler uses
+    nqp = max degree + 1 nodes per span in every direction (R01.4), and with a geometry neither rule is exact, so reproduction
+    of functions of the space holds only because both sides make the same quadrature error.  inner_products / integrate
+    therefore build their grid by make_tensor_quadrature(meshes, nqp) with that single nqp."""
+    n = 0
+    for q in ('pyiga.assemble.inner_products', 'pyiga.assemble.integrate'):
+        fi = ctx.prog.func(q)
+        tq = [c for c in own_nodes(fi.node) if isinstance(c, ast.Call) and (call_name(c) or '').split('.')[-1] == 'make_tensor_quadrature']
+        per_axis = [c for c in own_nodes(fi.node) if isinstance(c, ast.Call) and (call_name(c) or '').split('.')[-1] in ('make_iterated_quadrature', 'gauss_rule')
+                    and len(c.args) >= 2 and any(isinstance(x, ast.Attribute) and x.attr == 'p' for x in ast.walk(c.args[1] if (call_name(c) or '').endswith('make_iterated_quadrature') else c.args[0]))
+                    and guards_in_comprehension(c)]
+        if per_axis:
+            n += 1
+            ctx.violated('R17.7', q, 'one tensor Gauss rule with the common node count', per_axis[0],
+                         '`%s` chooses the number of nodes per direction from that direction\'s own degree; the compiled mass matrix uses max degree + 1 in '
+                         'every direction, so with a geometry and unequal degrees the load vector is no longer the mass matrix applied to the '
+                         'coefficients and project_L2 does not reproduce the space' % src(per_axis[0])[:80])
+            continue
+        if not tq:
+            ctx.undecided('R17.7', q, 'one tensor Gauss rule with the common node count', fi.node, 'quadrature construction not recognised')
+            continue
+        n += 1
+        ctx.expect('R17.7', q, tq[0], 'make_tensor_quadrature([kv.mesh for kv in kvs], nqp)', tq[0], 'same rule as the assemblers', label=src(tq[0]))
+        ctx.expect_assign('R17.7', fi, 'nqp', 'max(kv.p for kv in kvs) + 1', 'common node count = max degree + 1')
+    ctx.floor('R17.7', 'load-vector / integral routines', n, 2)
+
+
+def guards_in_comprehension(node):
+    p = parent(node)
+    while p is not None and not isinstance(p, (ast.FunctionDef, ast.AsyncFunctionDef)):
+        if isinstance(p, (ast.ListComp, ast.GeneratorExp, ast.For)):
+            return True
+        p = parent(p)
+    return False
+
+
 def r17_5(ctx):
     it = ctx.prog.func(AP + '.interpolate')
     d = [s for s in own_nodes(it.node) if isinstance(s, ast.Assign) and src(s.targets[0]) == 'nodes']
@@ -248,3 +285,4 @@ def run(ctx):
         o.rule = 'R17.4'
     r17_5(ctx)
     r17_6(ctx)
+    r17_7(ctx)
